@@ -191,7 +191,9 @@ struct History {
                 auto* spkm = ws.wallet().GetScriptPubKeyMan(type, internal);
                 if (!spkm) continue;
                 const uint256 id = spkm->GetID();
-                auto mit = max_idx.find(id);
+                model.Refresh(ws.wallet());
+                auto bit = model.by_id.find(id);
+                auto mit = max_idx.find(bit != model.by_id.end() ? bit->second->id : id); // max_idx is keyed by the id of the expanded string
                 const int target = (mit == max_idx.end() ? 0 : mit->second + 1) + s.range<int>(0, wo.keypool);
                 const CScript* spk = model.ScriptAt(id, target);
                 if (!spk) continue;
